@@ -208,6 +208,23 @@ def rand_cache(rng):
 # -------------------------------------------------------------------------------------------------
 
 
+LAST = {"tag": None}  # property tag of the violation that made the last run_five() return None
+
+
+class _Tagging:
+    """res proxy that remembers the tag of the last violation recorded through it"""
+
+    def __init__(self, res):
+        self._res = res
+
+    def violation(self, prop, kind, msg, case):
+        LAST["tag"] = prop
+        self._res.violation(prop, kind, msg, case)
+
+    def __getattr__(self, name):
+        return getattr(self._res, name)
+
+
 class StoreLog:
     """wrappers on the memory system's write_* (instance level): (width, addr, value) per accepted call"""
 
@@ -218,9 +235,9 @@ class StoreLog:
             orig = getattr(mem, name)
 
             def wrap(address, value, *a, _orig=orig, _w=w, **kw):
-                direct = (a[0] if a else kw.get("directly_write_to_lower_memory", False))
-                if not direct:
-                    self.log.append((address & M32, _w, int(value) & ((1 << (8 * _w)) - 1)))
+                # every write an executing instruction performs is an architectural store, whatever the
+                # cache-bypass flag says (the log is attached after the initial preload)
+                self.log.append((address & M32, _w, int(value) & ((1 << (8 * _w)) - 1)))
                 return _orig(address, value, *a, **kw)
 
             setattr(mem, name, wrap)
@@ -237,6 +254,8 @@ def run_five(case, res, prop, ref, on_sim=None):
     """runs the real five-stage pipeline under the monitors; returns summary dict or None after a violation"""
     from architecture_simulator.simulation.runtime_errors import InstructionExecutionException
 
+    LAST["tag"] = None
+    res = _Tagging(res)
     hz = case["hz"]
     VAL = prop if prop in ("C02", "C08") else ("C02" if hz else "C08")  # tag for value/order clauses
     TIM = "C07" if hz else "C08"  # tag for timing clauses
